@@ -31,8 +31,16 @@ def gen_history(ctx, rng):
     nd = rng.randint(1, 2)
     dicts = [[]]
     for _ in range(nd):
-        names = rng.sample(["f", "g", "h"], rng.randint(1, 2))
-        dicts.append([gen_fn(rng, n, space, rng.randint(1, 2)) for n in names])
+        # value kinds of a user dict: plain callables / UserFunction objects / mixed / a constant tensor; an explicitly
+        # passed EMPTY dict is legal too
+        names = rng.sample(["f", "g", "h"], rng.choice([0, 1, 1, 1, 2, 2]))
+        vkind = rng.choice(["plain", "plain", "wrapped", "wrapped", "mixed"])
+        d = []
+        for n in names:
+            fn = c04.gen_const(rng, n, rng.randint(1, 2)) if rng.random() < 0.1 else gen_fn(rng, n, space, rng.randint(1, 2))
+            fn["wrap"] = vkind == "wrapped" or (vkind == "mixed" and rng.random() < 0.5)
+            d.append(fn)
+        dicts.append(d)
     nc = rng.randint(2, 4)
     conds = []
     for cid in range(1, nc + 1):
@@ -174,7 +182,7 @@ def line_history(case, mode="new"):
     for op in case["ops"]:
         c = case["conds"][op["cid"] - 1]
         ops.append(cond_tok(c, op["fresh"]) if op["op"] == "c" else f"e {op['cid']} {tok_table(prow(op['fresh']))}")
-    dicts = lst(case["dicts"], lambda d: lst(d, lambda f: f["name"] + " " + fn_tok(f)))
+    dicts = lst(case["dicts"], lambda d: lst(d, lambda f: f"{f['name']} {'wrapped' if f.get('wrap') else 'raw'} {fn_tok(f)}"))
     return f"run {mode} {dicts} {lst(ops)}"
 
 
@@ -190,6 +198,12 @@ def judge_history(rep, case, res, alone, reply):
             rep.count("history:shared-by-two-static")
     if len(shared.get(0, [])) >= 2:
         rep.count("history:default-argument-shared")
+    for i, d in enumerate(case["dicts"][1:], 1):
+        kinds = sorted({"const" if f.get("form") == "const" else "UserFunction" if f.get("wrap") else "plain" for f in d})
+        rep.count("history:dict-values=" + ("+".join(kinds) if kinds else "empty"))
+        if len(shared.get(i, [])) >= 2 and kinds == ["UserFunction"]:
+            rep.count("history:all-UserFunction-dict-shared")
+    c04.count_shapes(rep, [c["resid"] for c in case["conds"]] + [f for d in case["dicts"] for f in d])
     # ---- the property on the implementation: alone vs company, dicts untouched, static repeatable
     for c in case["conds"]:
         cid = c["cid"]
@@ -225,7 +239,7 @@ def judge_history(rep, case, res, alone, reply):
         if not ok:
             rep.disagree("history outputs: drivers/C14.lean `run new` vs the real conditions", case, res["outs"], reply)
             return
-    want_tags = " ; ".join(" ".join(f"{f['name']}:raw" for f in d) for d in case["dicts"])
+    want_tags = " ; ".join(" ".join(f"{f['name']}:{'wrapped' if f.get('wrap') else 'raw'}" for f in d) for d in case["dicts"])
     if tags.strip() != want_tags.strip():
         rep.disagree("history: model's user dicts changed", case, want_tags, tags)
 
